@@ -102,9 +102,10 @@ Definition m_on_access (hashf : Z -> Z -> Z) (cur : Z -> Z) (m : mstate) (id : Z
     if is_alive m2 id then m_wheel_add cur m2 id else m2
   else m1.
 
-(* c.maintenance(nil) at clock [now], with [rnd] the random source of the admission test.
+(* c.maintenance(nil) at clock [now], with [rnd] the random source of the admission test and [adj] the
+   hill climber's amount (p.adjustment once determineAdjustment has run: an input).
    Returns (expired ids, size-evicted ids during task replay, size-evicted ids by evictNodes). *)
-Definition m_maintenance (hashf : Z -> Z -> Z) (cur : Z -> Z) (rnd now : Z) (m : mstate) : mstate * list Z * list Z * list Z :=
+Definition m_maintenance (hashf : Z -> Z -> Z) (cur : Z -> Z) (rnd now adj : Z) (m : mstate) : mstate * list Z * list Z * list Z :=
   (* drainReadBuffer *)
   let m1 := if skip_read_buffer m then m
             else with_rbuf (fold_left (m_on_access hashf cur) (rbuf m) m) [] in
@@ -123,7 +124,7 @@ Definition m_maintenance (hashf : Z -> Z -> Z) (cur : Z -> Z) (rnd now : Z) (m :
       (fold_left (fun mm id => if m_expire mm then with_whl mm (wheel_delete (whl mm) id) else mm) ids (with_pol m3 p), ids)
     else (m3, []) in
   (* climb *)
-  let m5 := if m_evict m4 then with_pol m4 (pol_climb (pol m4)) else m4 in
+  let m5 := if m_evict m4 then with_pol m4 (fst (pol_climb_adj adj (pol m4))) else m4 in
   (m5, expired, ev_tasks, evicted).
 
 (* SetMaximum's policy part *)
